@@ -1808,24 +1808,32 @@ Proof.
 Qed.
 
 (* ---- ReshuffleSeries does nothing when the label strings are pairwise distinct ---- *)
-Lemma reshuffle_go_id : forall (l : list (string * pseries)) seen,
+Lemma labels_eqb_spec (a b : labels) : labels_eqb a b = true <-> a = b.
+Proof.
+  unfold labels_eqb. revert b. induction a as [|[k v] a IH]; intros [|[k' v'] b]; cbn [list_eqb]; try (split; [discriminate|discriminate]); [tauto|].
+  unfold pair_eqb at 1. cbn [fst snd]. rewrite !andb_true_iff, IH, !String.eqb_eq. split.
+  - intros [[-> ->] ->]. reflexivity.
+  - intros E. inversion E. tauto.
+Qed.
+
+Lemma reshuffle_go_id : forall (l : list (labels * pseries)) seen,
   NoDup (map fst l) -> (forall k, List.In k seen -> ~ List.In k (map fst l)) ->
   reshuffle_go seen l = map snd l.
 Proof.
   induction l as [|[k s] rest IH]; intros seen Hnd Hseen; [reflexivity|].
   cbn [reshuffle_go map snd fst] in *. inversion Hnd as [|? ? Hk Hnd']; subst.
-  assert (Hex : existsb (String.eqb k) seen = false).
-  { apply not_true_is_false. intros H. apply existsb_exists in H. destruct H as [k' [Hin He]]. apply String.eqb_eq in He. subst k'.
+  assert (Hex : existsb (labels_eqb k) seen = false).
+  { apply not_true_is_false. intros H. apply existsb_exists in H. destruct H as [k' [Hin He]]. apply labels_eqb_spec in He. subst k'.
     apply (Hseen k Hin). now left. }
   rewrite Hex.
-  assert (Hdups : filter (fun ks : string * pseries => String.eqb (fst ks) k) rest = []).
+  assert (Hdups : filter (fun ks : labels * pseries => labels_eqb (fst ks) k) rest = []).
   { clear -Hk. induction rest as [|[k' s'] r IHr]; [reflexivity|]. cbn [filter fst map] in *.
-    destruct (String.eqb_spec k' k) as [->|Hne]; [exfalso; apply Hk; now left|]. apply IHr. intros H. apply Hk. now right. }
+    destruct (labels_eqb k' k) eqn:E; [apply labels_eqb_spec in E; subst k'; exfalso; apply Hk; now left|]. apply IHr. intros H. apply Hk. now right. }
   rewrite Hdups. cbn [fold_left]. f_equal; [now destruct s|].
   apply IH; [assumption|]. intros k' [<-|Hin]; [assumption|]. intros H. apply (Hseen k' Hin). now right.
 Qed.
 Lemma reshuffle_id getl ss :
-  NoDup (map (fun s => label_str (getl (ps_fp s))) ss) -> reshuffle getl ss = ss.
+  NoDup (map (fun s => getl (ps_fp s)) ss) -> reshuffle getl ss = ss.
 Proof.
   intros Hnd. unfold reshuffle. rewrite reshuffle_go_id.
   - rewrite map_map. cbn [snd]. apply map_id.
@@ -1908,9 +1916,9 @@ Section FINAL.
     (* a sample inside the window belongs to a series announced between the two date bounds of the labels request *)
     (forall sm, List.In sm (d_samples db) -> window_ok h sm = true ->
        exists s, List.In s (d_series db) /\ t_fp s = sm_fp sm /\ (day_from h <= t_date s)%Z /\ (t_date s <= day_to h)%Z) ->
-    (* distinct stored series print distinct label strings *)
+    (* stored series with one label set (as the sorted list) carry one fingerprint: the fingerprint is a hash of the labels *)
     (forall s1 s2, List.In s1 (d_series db) -> List.In s2 (d_series db) ->
-       label_str (sort_labels (sort_labels (t_labels s1))) = label_str (sort_labels (sort_labels (t_labels s2))) -> t_fp s1 = t_fp s2) ->
+       sort_labels (sort_labels (t_labels s1)) = sort_labels (sort_labels (t_labels s2)) -> t_fp s1 = t_fp s2) ->
     exists rows out, prom_query_rows re_match re_full cluster dbname h ms db = Some rows /\
       prom_select cluster dbname h ms db = Some out /\
       NoDup (map o_fp out) /\
@@ -1952,8 +1960,8 @@ Section FINAL.
       unfold getl, fetch. rewrite <- Hfp, <- Hsfp.
       apply labels_get_own; try assumption; [apply (fp_functional _ _ _ Hdb)|].
       rewrite Hsfp, Hfp. now apply Hfpin. }
-    assert (Hkeys : NoDup (map (fun s => label_str (getl (ps_fp s))) ss)).
-    { rewrite <- (map_map ps_fp (fun fp => label_str (getl fp))). apply NoDup_map_inj_on; [assumption|].
+    assert (Hkeys : NoDup (map (fun s => getl (ps_fp s)) ss)).
+    { rewrite <- (map_map ps_fp (fun fp => getl fp)). apply NoDup_map_inj_on; [assumption|].
       intros x y Hx Hy He. apply in_map_iff in Hx. destruct Hx as [sx [<- Hsx]]. apply in_map_iff in Hy. destruct Hy as [sy [<- Hsy]].
       destruct (Hlab sx Hsx) as [s1 [Hs1 [Hf1 Hl1]]]. destruct (Hlab sy Hsy) as [s2 [Hs2 [Hf2 Hl2]]].
       rewrite Hl1, Hl2 in He. rewrite <- Hf1, <- Hf2. now apply Hdist. }
@@ -1994,7 +2002,7 @@ Example final_hypotheses_met :
   (forall sm, List.In sm (d_samples w_db) -> window_ok w_hints sm = true ->
      exists s, List.In s (d_series w_db) /\ t_fp s = sm_fp sm /\ (day_from w_hints <= t_date s)%Z /\ (t_date s <= day_to w_hints)%Z) /\
   (forall s1 s2, List.In s1 (d_series w_db) -> List.In s2 (d_series w_db) ->
-     label_str (sort_labels (sort_labels (t_labels s1))) = label_str (sort_labels (sort_labels (t_labels s2))) -> t_fp s1 = t_fp s2).
+     sort_labels (sort_labels (t_labels s1)) = sort_labels (sort_labels (t_labels s2)) -> t_fp s1 = t_fp s2).
 Proof.
   split.
   - intros sm [<-|[<-|[]]] _.
@@ -2312,7 +2320,7 @@ Proof.
               isort out_lt (map (fun s => {| o_labels := f (ps_fp s); o_fp := ps_fp s; o_samples := ps_samples s |}) (reshuffle f ss)) =
               isort out_lt (map (fun s => {| o_labels := g (ps_fp s); o_fp := ps_fp s; o_samples := ps_samples s |}) (reshuffle g ss))).
     { intros f g Hfg. f_equal. unfold reshuffle.
-      rewrite (map_ext (fun s => (label_str (f (ps_fp s)), s)) (fun s => (label_str (g (ps_fp s)), s))) by (intros; now rewrite Hfg).
+      rewrite (map_ext (fun s => (f (ps_fp s), s)) (fun s => (g (ps_fp s), s))) by (intros; now rewrite Hfg).
       apply map_ext. intros; now rewrite Hfg. }
     rewrite Ep in *. apply Hext. exact Hget.
 Qed.
